@@ -75,6 +75,8 @@ def expr_cases(rng, n, ctx, tag, classes=None, with_cov_frac=0.25):
         attempts += 1
         cls = classes[i % len(classes)]
         k = int(rng.integers(1, 4))
+        if cls == 'replica_subset_gapped':
+            k = max(k, 2)
         with_cov = rng.random() < with_cov_frac
         ops = _operands(rng, cls, k, with_cov, zero_ok=True)
         vals = [float(o.value) for o in ops]
@@ -301,7 +303,17 @@ def twin_cases(rng, n, ctx):
         def irregular():
             inner = sorted(rng.choice(np.arange(first + 1, last), size=L - 2, replace=False).tolist())
             return [first] + [int(x) for x in inner] + [last]
-        pairs = [(irregular(), irregular()) for _ in range(3)]
+        def sumtwin(lst):
+            """another list with the same length, first, last entry AND the same sum (two inner entries moved by +1 / -1)"""
+            out = list(lst)
+            for a in range(1, len(out) - 1):
+                for b in range(len(out) - 2, a, -1):
+                    if out[a] + 1 not in out and out[b] - 1 not in out and out[a] + 1 < out[b] - 1:
+                        out[a], out[b] = out[a] + 1, out[b] - 1
+                        return sorted(out)
+            return out
+        pairs = [(irregular(), irregular()) for _ in range(2)]
+        pairs.append((sumtwin(pairs[1][0]), sumtwin(pairs[1][1])))
         for j, (ia, ib) in enumerate(pairs):
             a = gen.make_obs(rng, [('A|r1', ia)], mean=1.3, sigma=0.03)
             b = gen.make_obs(rng, [('A|r1', ib)], mean=0.8, sigma=0.03)
